@@ -81,6 +81,10 @@ def backupLine (st : BkRun) (lineNo : Nat) (line : String) : Except String (BkRu
         let outs : List String :=
           (if ups.all (fun u => fileHashes.contains u.hash) then [] else [s!"PROPFAIL C17 snapshot {tag} ups={get "ups"} files={get "files"}"]) ++
           (if ups.all (·.opens) then [] else [s!"PROPFAIL C17 opens_with_key {tag} ups={get "ups"}"]) ++
+          (if get "exposed" == "-" || get "exposed" == "" then [] else
+            let names := ((get "exposed").splitOn ",").map fun x => (unhexStr x).getD x
+            [s!"PROPFAIL C05 at_rest {tag} while an upload was under way the database's directory held {names} (name:mode): a copy of the database beside it, or a file others may read",
+             s!"PROPFAIL C17 snapshot {tag} while an upload was under way the database's directory held {names} (name:mode)"]) ++
           (if ups.head?.map (·.tms) == some 0 then [] else [s!"PROPFAIL C17 first_upload {tag} ups={get "ups"}"]) ++
           (if gapsOK then [] else [s!"PROPFAIL C17 rate {tag} ups={get "ups"}"]) ++
           (if justified then [] else [s!"PROPFAIL C17 change_driven {tag} ups={get "ups"}"]) ++
